@@ -140,7 +140,7 @@ var allowedKeys = map[string]bool{
 }
 
 func configureCommand(cmd *exec.Cmd, params *object.Map) error {
-	for key := range params.Value() {
+	for _, key := range params.SortedKeys() {
 		if !allowedKeys[key] {
 			return fmt.Errorf("exec found unexpected key %q", key)
 		}
@@ -184,7 +184,8 @@ func configureCommand(cmd *exec.Cmd, params *object.Map) error {
 			return fmt.Errorf("exec expected map for env (got %s)", envObj.Type())
 		}
 		var env []string
-		for key, value := range envMap.Value() {
+		for _, key := range envMap.SortedKeys() {
+			value := envMap.Value()[key]
 			valueStr, err := object.AsString(value)
 			if err != nil {
 				return fmt.Errorf("exec expected string for env value (got %s)", value.Type())
